@@ -157,7 +157,11 @@ def generate(rng: random.Random, tier: str) -> dict:
     config["precondition_frequency"] = freq
     config["start_preconditioning_step"] = rng.choice([-1, freq, freq + 1, freq + 2])
     config["pt2"] = {"backend": rng.choice(["eager", "aot_eager"]), "dynamic": rng.choice([False, False, True, None])}
-    dtype = rng.choice(["float32", "float32", "float64"])
+    dtype = rng.choice(["float32", "float32", "float64", "bfloat16"])
+    if dtype == "bfloat16":
+        # low-precision parameters and gradients with float32 factor matrices: scalar-times-tensor products are
+        # evaluated in the dtype the traced program gives them
+        config["preconditioner_dtype"] = "float32"
     n_params = rng.choice([1, 2, 2, 3])
     params = gen.gen_params(rng, n_params, dtype, max_numel=120)
     groups = gen.gen_groups(rng, n_params, config, max_groups=2)
